@@ -19,6 +19,39 @@ pub struct Par {
     pub split: u8,
     pub by_value: bool,
     pub reps: usize,
+    /// shape of the parallel iterator: 0 plain slice/vec (indexed), 1 filter(always true)
+    /// (unindexed splitting), 2 chain of the two halves, 3 par_bridge over a sequential
+    /// iterator (items reach the folds in arbitrary order), 4 par_chunks(k).flatten_iter()
+    #[serde(default)]
+    pub source: u8,
+    /// schedule perturbation: 0 none; 1 a busy-wait on ~3% of the items (hash of the index);
+    /// 2 the first eighth of the items is slow (forces steals from the front)
+    #[serde(default)]
+    pub jitter: u8,
+}
+
+fn spin(units: u32) {
+    let mut acc = 0u64;
+    for i in 0..(units as u64 * 400) {
+        acc = acc.wrapping_mul(6364136223846793005).wrapping_add(i);
+    }
+    std::hint::black_box(acc);
+}
+fn delay(jitter: u8, idx: usize, n: usize) {
+    match jitter % 3 {
+        1 => {
+            let h = (idx as u64).wrapping_mul(0x9E3779B97F4A7C15) >> 59;
+            if h == 0 {
+                spin(1 + (idx % 7) as u32);
+            }
+        }
+        2 => {
+            if idx < n / 8 {
+                spin(2);
+            }
+        }
+        _ => {}
+    }
 }
 
 const THREADS: [usize; 6] = [1, 2, 3, 4, 8, 16];
@@ -30,32 +63,60 @@ fn pools() -> &'static Vec<rayon::ThreadPool> {
 fn par_collect<T: Uni + rayon::iter::FromParallelIterator<f64> + for<'a> rayon::iter::FromParallelIterator<&'a f64>>(c: &Par) -> T {
     let n = c.xs.len().max(1);
     let pool = &pools()[THREADS.iter().position(|&t| t == c.threads).unwrap_or(0)];
-    pool.install(|| {
-        if c.by_value {
-            let v = c.xs.clone().into_par_iter();
+    let jit = c.jitter;
+    macro_rules! split {
+        ($v:expr) => {
             match c.split % 8 {
-                0 => v.collect(),
-                1 => v.with_max_len(1).collect(),
-                2 => v.with_max_len(2).collect(),
-                3 => v.with_max_len(7).collect(),
-                4 => v.with_max_len(64).collect(),
-                5 => v.with_min_len(2).collect(),
-                6 => v.with_min_len(100).collect(),
-                _ => v.with_min_len(n).collect(),
+                0 => $v.collect(),
+                1 => $v.with_max_len(1).collect(),
+                2 => $v.with_max_len(2).collect(),
+                3 => $v.with_max_len(7).collect(),
+                4 => $v.with_max_len(64).collect(),
+                5 => $v.with_min_len(2).collect(),
+                6 => $v.with_min_len(100).collect(),
+                _ => $v.with_min_len(n).collect(),
             }
-        } else {
-            let v = c.xs.par_iter();
-            match c.split % 8 {
-                0 => v.collect(),
-                1 => v.with_max_len(1).collect(),
-                2 => v.with_max_len(2).collect(),
-                3 => v.with_max_len(7).collect(),
-                4 => v.with_max_len(64).collect(),
-                5 => v.with_min_len(2).collect(),
-                6 => v.with_min_len(100).collect(),
-                _ => v.with_min_len(n).collect(),
+        };
+    }
+    pool.install(|| match (c.source % 5, c.by_value) {
+        // indexed sources honour the splitting bounds
+        (0, true) => {
+            let v = c.xs.clone().into_par_iter().enumerate().map(move |(i, x)| {
+                delay(jit, i, n);
+                x
+            });
+            split!(v)
+        }
+        (0, false) => {
+            if jit == 0 {
+                let v = c.xs.par_iter();
+                split!(v)
+            } else {
+                let v = c.xs.par_iter().enumerate().map(move |(i, x)| {
+                    delay(jit, i, n);
+                    x
+                });
+                split!(v)
             }
         }
+        // unindexed: filter that keeps everything
+        (1, true) => c.xs.clone().into_par_iter().filter(|x| !x.is_nan()).collect(),
+        (1, false) => c.xs.par_iter().filter(|x| !x.is_nan()).collect(),
+        // chain of the two halves
+        (2, true) => {
+            let (a, b) = c.xs.split_at(c.xs.len() / 2);
+            a.to_vec().into_par_iter().chain(b.to_vec().into_par_iter()).collect()
+        }
+        (2, false) => {
+            let (a, b) = c.xs.split_at(c.xs.len() / 2);
+            a.par_iter().chain(b.par_iter()).collect()
+        }
+        // par_bridge: a sequential iterator fed to the pool, arbitrary arrival order
+        (3, true) => c.xs.iter().copied().par_bridge().collect(),
+        (3, false) => c.xs.iter().par_bridge().collect(),
+        // chunks flattened
+        (_, true) => c.xs.par_chunks(7).flat_map_iter(|ch| ch.iter().copied()).collect(),
+        (_, false) => c.xs.par_chunks(7).flat_map_iter(|ch| ch.iter()).collect(),
     })
 }
 
@@ -102,7 +163,7 @@ impl Check for Parallel {
         "parallel_collect"
     }
     fn fp(&self, c: &Par, h: &mut Fp) {
-        h.fs(&c.xs).u(c.threads as u64).u(c.split as u64).u(c.by_value as u64);
+        h.fs(&c.xs).u(c.threads as u64).u(c.split as u64).u(c.by_value as u64).u(c.source as u64).u(c.jitter as u64);
     }
     fn test(&self, c: &Par, o: &mut Obs) -> TestResult {
         if !THREADS.contains(&c.threads) {
@@ -141,10 +202,20 @@ impl Check for Parallel {
         o.classf(format!("threads={}", c.threads));
         o.classf(format!("split={}", ["default", "max_len(1)", "max_len(2)", "max_len(7)", "max_len(64)", "min_len(2)", "min_len(100)", "min_len(n)"][(c.split % 8) as usize]));
         o.class(n_bucket(c.xs.len()));
+        o.classf(format!("source={}", ["indexed", "filter (unindexed)", "chain", "par_bridge", "par_chunks+flat_map_iter"][(c.source % 5) as usize]));
+        if c.jitter % 3 != 0 {
+            o.class("schedule perturbed by per-item delays");
+        }
         Ok(())
     }
     fn simplify(&self, c: &Par) -> Vec<Par> {
         let mut out = Vec::new();
+        if c.jitter != 0 {
+            out.push(Par { jitter: 0, ..c.clone() });
+        }
+        if c.source != 0 {
+            out.push(Par { source: 0, ..c.clone() });
+        }
         if c.xs.len() > 1 {
             out.push(Par { xs: c.xs[..c.xs.len() / 2].to_vec(), ..c.clone() });
             out.push(Par { xs: c.xs[c.xs.len() / 2..].to_vec(), ..c.clone() });
@@ -154,7 +225,7 @@ impl Check for Parallel {
 }
 
 pub fn run(cx: &Ctx) {
-    cx.set_rule("cases = (vector over the C01 domain of length 0, 1, 2, 3, 7, 64, 1000, 10^4 or random (thorough: 10^5, 10^6), explicit ThreadPoolBuilder pool of 1, 2, 3, 4, 8 or 16 threads, splitting {default, with_max_len(1|2|7|64), with_min_len(2|100|n)}, par_iter() (&f64) or into_par_iter() (f64), 3 repetitions) collected into Mean, Variance, Skewness, Kurtosis, Min, Max, Moments4 and a harness-instantiated order-6 type. Oracle: len() exactly the sequential len(); min/max exactly the sequential ones; every other accessor inside the envelope of the EXACT statistics (hence any two runs differ by at most two envelopes); empty input gives the snapshot of new(). The verdict never depends on timing: every explored schedule must satisfy the same schedule-independent envelope. Non-trivial = at least 2 threads and an input longer than the splitting granularity; distinct = hash of (input bits, pool size, splitting, item kind)");
+    cx.set_rule("cases = (vector over the C01 domain of length 0, 1, 2, 3, 7, 64, 1000, 10^4 or random (thorough: 10^5, 10^6), explicit ThreadPoolBuilder pool of 1, 2, 3, 4, 8 or 16 threads, splitting {default, with_max_len(1|2|7|64), with_min_len(2|100|n)}, par_iter() (&f64) or into_par_iter() (f64), iterator shape {indexed, filter (unindexed splitting), chain, par_bridge, par_chunks+flat_map_iter}, optional per-item busy-wait delays that perturb the steal order, 2-3 repetitions) collected into Mean, Variance, Skewness, Kurtosis, Min, Max, Moments4 and a harness-instantiated order-6 type. Oracle: len() exactly the sequential len(); min/max exactly the sequential ones; every other accessor inside the envelope of the EXACT statistics (hence any two runs differ by at most two envelopes); empty input gives the snapshot of new(). The verdict never depends on timing: every explored schedule must satisfy the same schedule-independent envelope. Non-trivial = at least 2 threads and an input longer than the splitting granularity; distinct = hash of (input bits, pool size, splitting, item kind)");
     cx.assume("rayon's steal order is not controlled by the harness: pool size and splitting bounds fix the forced part of the split tree, adaptive splits are sampled by repetition; the schedule-independent half (every contiguous chunking and merge tree, with empty fold identities) is decided by C02 and C11");
     let lens: Vec<usize> = vec![0, 1, 2, 3, 7, 64, 1000, 10_000];
     cx.label("grid");
@@ -170,7 +241,17 @@ pub fn run(cx: &Ctx) {
                     continue;
                 }
                 for &bv in &[false, true] {
-                    grid.push(Par { xs: xs.clone(), threads: t, split, by_value: bv, reps: 3 });
+                    grid.push(Par { xs: xs.clone(), threads: t, split, by_value: bv, reps: 3, source: 0, jitter: 0 });
+                    if split == 0 {
+                        for source in 1..5u8 {
+                            grid.push(Par { xs: xs.clone(), threads: t, split, by_value: bv, reps: 2, source, jitter: 0 });
+                        }
+                    }
+                    if n >= 64 && n <= 1000 && (split == 0 || split == 3) {
+                        for jitter in 1..3u8 {
+                            grid.push(Par { xs: xs.clone(), threads: t, split, by_value: bv, reps: 2, source: 0, jitter });
+                        }
+                    }
                 }
             }
         }
@@ -181,19 +262,19 @@ pub fn run(cx: &Ctx) {
         let pl = gen::Placement { shape: 7, order: 0, ls: 0.3, lk: Some(1.0), neg: false };
         let xs = gen::bulk_dataset(n, r.next(), &pl);
         for (t, split, bv) in [(1usize, 0u8, false), (2, 0, true), (16, 0, false), (4, 7, false)] {
-            grid.push(Par { xs: xs.clone(), threads: t, split, by_value: bv, reps: 1 });
+            grid.push(Par { xs: xs.clone(), threads: t, split, by_value: bv, reps: 1, source: 0, jitter: 0 });
         }
     }
     cx.run_list(&Parallel, grid, "lengths {0,1,2,3,7,64,1000,10^4} (+ one trending input of 2*10^5 on 4 configurations) x pools {1,2,3,4,8,16} x 8 splittings x {par_iter, into_par_iter} x 3 repetitions");
     cx.label("generated");
     let strat = || {
-        (gen::dataset(1, 3000, 20000, 11.9), proptest::sample::select(THREADS.to_vec()), 0u8..8, any::<bool>()).prop_map(|(xs, threads, split, by_value)| Par { xs, threads, split, by_value, reps: 2 })
+        (gen::dataset(1, 3000, 20000, 11.9), proptest::sample::select(THREADS.to_vec()), 0u8..8, any::<bool>(), 0u8..5, 0u8..3).prop_map(|(xs, threads, split, by_value, source, jitter)| Par { jitter: if xs.len() <= 2000 { jitter } else { 0 }, xs, threads, split, by_value, reps: 2, source })
     };
     // proptest workers run concurrently on top of the rayon pools: oversubscription perturbs the schedules further
     cx.run_pt(&Parallel, cx.by(150, 3000), 4, strat, "random data sets n <= 20000 x random pool x random splitting, 2 repetitions");
     if cx.thorough() {
         cx.label("bulk");
-        let bulk = |n: usize| move || (any::<u64>(), gen::placement(11.9), proptest::sample::select(THREADS.to_vec()), 0u8..8, any::<bool>()).prop_map(move |(seed, pl, threads, split, by_value)| Par { xs: gen::bulk_dataset(n, seed, &pl), threads, split, by_value, reps: 2 });
+        let bulk = |n: usize| move || (any::<u64>(), gen::placement(11.9), proptest::sample::select(THREADS.to_vec()), 0u8..8, any::<bool>()).prop_map(move |(seed, pl, threads, split, by_value)| Par { xs: gen::bulk_dataset(n, seed, &pl), threads, split, by_value, reps: 2, source: 0, jitter: 0 });
         cx.run_pt(&Parallel, 12, 2, bulk(100_000), "n = 1e5");
         cx.run_pt(&Parallel, 3, 2, bulk(1_000_000), "n = 1e6");
     }
